@@ -298,6 +298,55 @@ var ruleTar = &core.Rule{ID: "R18.1", Min: 8,
 				s.Check(!v, "tar "+returnOrdinal(ret), c.Pos(ret.Pos()), "rejection", "the tar detector accepts without comparing checksums")
 			}
 		}
+		// why a header is rejected: too short, an unparseable checksum field, the comparison of the sums, and the one
+		// documented exclusion (GLEP 78 binary packages, whose first member is named <dir>/gpkg-1). Any other
+		// rejection, or a wider exclusion, turns conforming archives away.
+		for _, ret := range core.Returns(f) {
+			if v, ok := core.ConstBool(ret.Results[0]); !ok || v {
+				continue
+			}
+			des := core.DominatingConds(ret.Block())
+			if len(des) == 0 {
+				continue
+			}
+			cond, val := core.StripNot(des[0].Cond, des[0].Val)
+			key := "tar " + returnOrdinal(ret) + ": reason of the rejection"
+			switch x := cond.(type) {
+			case *ssa.BinOp:
+				isLen := func(v ssa.Value) bool {
+					call, ok := v.(*ssa.Call)
+					return ok && core.IsBuiltin(&call.Call, "len")
+				}
+				if isLen(x.X) || isLen(x.Y) || x.X == ssa.Value(m.octal) || x.Y == ssa.Value(m.octal) {
+					continue // length guard / parse result: decided above
+				}
+				s.Und(key, c.Pos(ret.Pos()), "a rejection on a condition that is neither the length guard, the parsed checksum nor the GLEP 78 exclusion")
+			case *ssa.Call:
+				if !core.CalleeIs(&x.Call, "bytes", "Contains") || !val {
+					s.Und(key, c.Pos(ret.Pos()), "a rejection decided by the call "+x.Call.Value.Name()+": not the recognised form bytes.Contains(name field, marker)")
+					continue
+				}
+				needle, okN := tree.ConstBytes(x.Call.Args[1])
+				win, okW := x.Call.Args[0].(*ssa.Slice)
+				inName := okW && (win.X == ssa.Value(raw) || win.X == m.block) && (win.Low == nil || core.IsConstInt(win.Low, 0)) && win.High != nil
+				if inName {
+					k, isK := core.ConstInt(win.High)
+					inName = isK && k <= tarNameLen
+				}
+				switch {
+				case !okN:
+					s.Und(key, c.Pos(ret.Pos()), "the marker searched for is not a constant")
+				case !inName:
+					s.Bad(key, c.Pos(ret.Pos()), "the exclusion marker is searched outside the 100-byte name field of the first header: archives whose other fields or members contain it are turned away")
+				case string(needle) != "/gpkg-1\x00":
+					s.Bad(key, c.Pos(ret.Pos()), fmt.Sprintf("the exclusion searches the name field for %q instead of the complete last path element \"/gpkg-1\\x00\": conforming archives whose first member name merely contains that text are no longer reported as tar", string(needle)))
+				default:
+					s.OK(key, c.Pos(ret.Pos()), "GLEP 78 exclusion: name field contains \"/gpkg-1\\x00\"")
+				}
+			default:
+				s.Und(key, c.Pos(ret.Pos()), "a rejection on an unrecognised condition")
+			}
+		}
 		// octal parser table
 		h := m.octal.Call.StaticCallee()
 		var ranged ssa.Value
